@@ -13,7 +13,11 @@
 //!     url    = the [ADDRESS/]INTERFACE.METHOD argument, same placeholders
 //!     args   = - | (args x<text> <json | bad>)      ARGUMENTS as typed, and what serde_json makes of it
 //!     color  = on | off | auto | absent             (absent: no --color argument)
-//!     further optional elements: (tty <stdout p|t> <stderr p|t>)  pipe or pseudo-terminal for the tool's stdout / stderr;
+//!     further optional elements: (debug)  the global --debug flag;  (bogus-resolver)  -R with an address nobody
+//!              listens on (must be ignored when the argument carries an address);
+//!              (hosts)  the tool runs in a private mount namespace (unshare -rm) whose /etc/hosts maps `multihost`
+//!              to ::1 AND 127.0.0.1, the url is tcp:multihost:PORT/…, the service listens on one of the two;
+//!              (tty <stdout p|t> <stderr p|t>)  pipe or pseudo-terminal for the tool's stdout / stderr;
 //!              inside frames: (cuts n*)  byte offsets at which the service pauses between two writes
 //!     frame  = as in suite `client` ((f b<bytes> <dec>) | (part b<bytes> <dec>)); sent in answer to the
 //!              first request of the connection, then the service shuts down its sending side
@@ -347,12 +351,29 @@ fn run_cli(input: &Sx) -> Sx {
         None
     };
 
-    let mut cmd = Command::new(varlink_bin());
+    let debug = tagged("debug").is_some();
+    let bogus_resolver = tagged("bogus-resolver").is_some();
+    let hosts = tagged("hosts").is_some();
+    let mut cmd = if hosts {
+        // a private /etc/hosts for the tool only (mount namespace; the network namespace stays shared)
+        let hf = dir.join("hosts");
+        let _ = std::fs::write(&hf, "127.0.0.1 localhost\n::1 multihost\n127.0.0.1 multihost\n");
+        let mut c = Command::new("unshare");
+        c.arg("-rm").arg("sh").arg("-c").arg("mount --bind \"$0\" /etc/hosts && exec \"$@\"").arg(&hf).arg(varlink_bin());
+        c
+    } else {
+        Command::new(varlink_bin())
+    };
+    if debug {
+        cmd.arg("--debug");
+    }
     if color != "absent" {
         cmd.arg("--color").arg(&color);
     }
     if form == "resolver" {
         cmd.arg("-R").arg(&resolver_addr);
+    } else if bogus_resolver {
+        cmd.arg("-R").arg(format!("unix:{}/no-resolver-here", dir.to_str().unwrap()));
     }
     cmd.arg("call");
     if more {
@@ -500,7 +521,12 @@ fn run_cli(input: &Sx) -> Sx {
             sx::boolean(clean),
             sx::boolean(esc),
             exit,
-            classify_stderr(&String::from_utf8_lossy(&stderr)),
+            if debug {
+                // --debug prints the error in its Debug form: only "something was reported" is compared
+                if stderr.is_empty() { sx::atom("-") } else { sx::tagged("msg", vec![sx::atom("debug")]) }
+            } else {
+                classify_stderr(&String::from_utf8_lossy(&stderr))
+            },
         ],
     )
 }
@@ -737,6 +763,22 @@ fn transport(rng: &mut Rng, frames: Sx, tags: &mut Vec<String>) -> Sx {
     sx::list(fl)
 }
 
+/// can the harness give the tool a private /etc/hosts (user + mount namespace) and is ::1 there?
+fn unshare_works() -> bool {
+    static ONCE: std::sync::OnceLock<bool> = std::sync::OnceLock::new();
+    *ONCE.get_or_init(|| {
+        let ns = Command::new("unshare")
+            .args(["-rm", "sh", "-c", "mount --bind /etc/hostname /etc/hosts"])
+            .stdin(Stdio::null())
+            .stdout(Stdio::null())
+            .stderr(Stdio::null())
+            .status()
+            .map(|s| s.success())
+            .unwrap_or(false);
+        ns && TcpListener::bind("[::1]:0").is_ok()
+    })
+}
+
 fn gen_case(rng: &mut Rng) -> Case {
     let mut tags = Vec::new();
     let method = match rng.below(6) {
@@ -747,7 +789,14 @@ fn gen_case(rng: &mut Rng) -> Case {
         _ => format!("org.example.cli.M{}", rng.below(100)),
     };
     let mut decoy: Option<String> = None;
-    let (form, listen, url) = match rng.below(23) {
+    let mut hosts = false;
+    let (form, listen, url) = match rng.below(if unshare_works() { 25 } else { 23 }) {
+        23 | 24 => {
+            // a host name that resolves to several addresses, the service listens on one of them only
+            hosts = true;
+            let l = (*rng.pick(&["tcp:127.0.0.1:@PORT@", "tcp:[::1]:@PORT@"])).to_string();
+            ("tcp", l, format!("tcp:multihost:@PORT@/{}", method))
+        }
         20 => {
             // an abstract name that ends in '/' or '/.': the split is at the LAST slash; a sibling service listens
             // on the name without that ending
@@ -822,6 +871,10 @@ fn gen_case(rng: &mut Rng) -> Case {
         }
     };
     let more = rng.chance(1, 2);
+    // global options: the outcome (stdout, exit status) must not depend on them
+    let debug = rng.chance(1, 4);
+    let bogus_resolver = form != "resolver" && rng.chance(1, 10);
+    tags.push(format!("debug:{}", debug));
     let color = *rng.pick(&["on", "off", "on", "off", "auto", "auto", "absent"]);
     tags.push(format!("color:{}", color));
     tags.push(format!("more:{}", more));
@@ -843,6 +896,15 @@ fn gen_case(rng: &mut Rng) -> Case {
                 let mut v = vec![sx::atom(form), sx::xs(&listen), sx::xs(&url), args, sx::boolean(more), sx::atom(color), frames];
                 if let Some(d) = decoy {
                     v.push(sx::tagged("decoy", vec![sx::xs(&d)]));
+                }
+                if debug {
+                    v.push(sx::list(vec![sx::atom("debug")]));
+                }
+                if bogus_resolver {
+                    v.push(sx::list(vec![sx::atom("bogus-resolver")]));
+                }
+                if hosts {
+                    v.push(sx::list(vec![sx::atom("hosts")]));
                 }
                 if tty != "pp" {
                     v.push(sx::tagged("tty", vec![sx::atom(&tty[0..1]), sx::atom(&tty[1..2])]));
